@@ -38,7 +38,7 @@ NULLS = [
     (-99999.25, ["-99999.25", "-99999.2500", "-9.999925E4"], ["-99999.25", "-99999.250"], ["-99999.2", "-99999.3"]),
     (2147483647.0, ["2147483647", "2147483647.0", "2.147483647e9"], ["2147483647", "2147483647.00"], ["2147483648", "2147480000"]),
 ]
-QUICK_NULLS = [0, 1, 2, 6]
+QUICK_NULLS = [0, 1, 6]
 ORD = ["1.5", "12", "7.25", "3", "44.5", "6"]
 KINDS = "NMno"  # N: null plain, M: null other spelling, n: near, o: ordinary
 PLACEMENTS = ["".join(p) for p in itertools.product(KINDS, repeat=6)]
@@ -77,9 +77,10 @@ def points(tier):
                 for pl in PLACEMENTS[::7]:
                     pts.append([0, 0, "2x3", "NO", False, pol, eng, pl] + extra)
     for alt in ([0, 1, "2x3", "NO", False], [0, 2, "2x3", "NO", False], [0, 0, "3x2", "NO", False],
-                [0, 0, "2x3", "YES", False], [0, 0, "2x3", "NO", True], [1, 1, "3x2", "YES", True], [7, 2, "2x3", "NO", False]):
+                [0, 0, "2x3", "YES", False], [0, 0, "2x3", "NO", True], [1, 1, "3x2", "YES", True], [7, 2, "2x3", "NO", False],
+                [2, 1, "2x3", "NO", False]):
         for eng in ("numpy", "normal"):
-            for pl in PLACEMENTS:
+            for pl in PLACEMENTS[::2]:
                 pts.append(alt + ["strict", eng, pl])
     return pts
 
